@@ -22,7 +22,7 @@ ASSUMPTIONS = [
     "itself the spelling without a trailing separator is accepted as well",
     "the entry must be one that existed at some time during the session (the harness's byte-level record of names)",
 ]
-MINIMUMS = {"quick": {"paths_judged": 3000, "paths_with_special_bytes": 500, "dual_watch_cases": 10}, "thorough": {"paths_judged": 200000}}
+MINIMUMS = {"quick": {"paths_judged": 3000, "paths_with_special_bytes": 500, "dual_watch_cases": 10, "linked_probes_judged": 20, "linked_link_renames": 8}, "thorough": {"paths_judged": 200000}}
 WALL_CAP = {"quick": 170, "thorough": 3000}
 
 NAMES = ["a", "é", "☃", os.fsdecode(b"\xff\xfe.txt"), os.fsdecode(b"\xfd")]
@@ -155,6 +155,141 @@ def run_dual(b: Batch, r, observer):
         u.cleanup()
 
 
+def run_linked(b: Batch, r):
+    """follow_symlink=True x recursive x a symbolic link (inside the tree) to a directory outside it.  The link itself and real
+    directories above it are renamed inside the tree; after every rename a file with a never-used name is created in every directory
+    of the target.  The reader resolves a record's path when it reads it, in kernel order, so whatever the timing the only correct path of
+    such a file is root / <the link's CURRENT name> / <relative name below the target>: a path naming the link's earlier name names an
+    entry that never existed.  Events not yet delivered when the wait ends are counted, never judged (coverage is C02's business)."""
+    import random
+    import shutil
+    import tempfile
+    import threading
+    import time
+
+    from watchdog.observers.inotify import InotifyObserver
+
+    base = tempfile.mkdtemp(prefix="wdv-c19l-")
+    obs = None
+    try:
+        names = [n for n in NAMES if n != NAMES[0]] + ["b", "c"]
+        r.shuffle(names)
+        as_bytes = r.random() < 0.4
+        conv = os.fsencode if as_bytes else (lambda x: x)
+        root = os.path.join(base, "root")
+        target = os.path.join(base, "outside", "t")
+        os.makedirs(root)
+        tdirs = [""]  # directories of the target, relative to it
+        os.makedirs(target)
+        for d in range(r.randint(0, 2)):
+            parent = r.choice(tdirs)
+            rel = (parent + "/" if parent else "") + f"s{d}"
+            os.mkdir(os.path.join(target, rel))
+            tdirs.append(rel)
+        holders = ["", "h0", "h1"]  # real directories of the tree that may hold the link
+        os.mkdir(os.path.join(root, "h0"))
+        os.mkdir(os.path.join(root, "h1"))
+        holder = r.choice(holders)
+        link_name = names.pop()
+        link_rel = (holder + "/" if holder else "") + link_name
+        os.symlink(target, os.path.join(root, link_rel), target_is_directory=True)
+        lock = threading.Lock()
+        got = []
+
+        class H:
+            def dispatch(self, e):
+                with lock:
+                    got.append(e)
+
+        try:
+            obs = InotifyObserver(timeout=0.2)
+            obs.schedule(H(), conv(root), recursive=True, follow_symlink=True)
+            obs.start()
+        except OSError as e:
+            import errno
+
+            if e.errno in (errno.EMFILE, errno.ENFILE, errno.ENOSPC):
+                b.count("cases_skipped_for_lack_of_inotify_instances")
+                obs = None
+                return
+            raise
+        uniq = [0]
+        script = []
+
+        def probe_round():
+            want = {}
+            for d in tdirs:
+                uniq[0] += 1
+                nm = f"p{uniq[0]}" + r.choice(["", names[0]])
+                open(os.path.join(target, d, nm) if d else os.path.join(target, nm), "w").close()
+                want[nm] = conv(os.path.join(root, link_rel, d, nm) if d else os.path.join(root, link_rel, nm))
+            end = time.monotonic() + 6.0
+            while time.monotonic() < end:
+                with lock:
+                    seen = {os.path.basename(os.fsdecode(e.src_path)) for e in got if type(e).__name__ == "FileCreatedEvent"}
+                if set(want) <= seen:
+                    break
+                time.sleep(0.02)
+            with lock:
+                evs = list(got)
+            for nm, exp in want.items():
+                hits = [e for e in evs for pth in (e.src_path, e.dest_path) if pth and os.path.basename(os.fsdecode(pth)) == nm]
+                if not hits:
+                    b.count("linked_probes_not_delivered_in_time")
+                    continue
+                b.count("linked_probes_judged")
+                for e in hits:
+                    for which, pth in (("src_path", e.src_path), ("dest_path", e.dest_path)):
+                        if not pth or os.path.basename(os.fsdecode(pth)) != nm:
+                            continue
+                        b.count("paths_judged")
+                        b.count("linked_paths_judged")
+                        if isinstance(pth, bytes) != as_bytes:
+                            b.violation("wrong-path-type", f"followed link: {type(e).__name__}.{which} = {pth!r} for a {'bytes' if as_bytes else 'str'} root",
+                                        witness={"script": script})
+                        elif pth != exp:
+                            b.violation("path-names-no-real-entry", f"followed link: {type(e).__name__}.{which} = {pth!r} but the only path of that entry under the root is {exp!r} "
+                                        f"(the link is now {link_rel!r})", witness={"script": script, "bytes": as_bytes})
+
+        time.sleep(0.05)
+        probe_round()
+        for step in range(r.randint(1, 4)):
+            kind = r.choice(["link", "link", "holder", "mkdir"])
+            if kind == "link" or (kind == "holder" and not holder):
+                new_holder = r.choice(holders)
+                new_rel = (new_holder + "/" if new_holder else "") + (names.pop() if names else f"l{step}")
+                os.rename(os.path.join(root, link_rel), os.path.join(root, new_rel))
+                script.append(["rename-link", link_rel, new_rel])
+                holder, link_rel = new_holder, new_rel
+                b.count("linked_link_renames")
+            elif kind == "holder":
+                new_holder = f"h{step + 2}"
+                os.rename(os.path.join(root, holder), os.path.join(root, new_holder))
+                script.append(["rename-holder", holder, new_holder])
+                holders[holders.index(holder)] = new_holder
+                link_rel = new_holder + "/" + link_rel.split("/", 1)[1]
+                holder = new_holder
+                b.count("linked_holder_renames")
+            else:
+                parent = r.choice(tdirs)
+                rel = (parent + "/" if parent else "") + f"n{step}"
+                os.mkdir(os.path.join(target, rel))
+                script.append(["mkdir-in-target", rel])
+                tdirs.append(rel)
+                time.sleep(0.3)  # the new directory gets its watch when the reader has seen its creation (C01's pacing condition)
+            if r.random() < 0.5:
+                time.sleep(r.choice([0.0, 0.05, 0.3]))
+            probe_round()
+        b.case()
+        b.count("linked_cases")
+        b.nontrivial(["linked", as_bytes, script])
+    finally:
+        if obs is not None:
+            obs.stop()
+            obs.join(10)
+        shutil.rmtree(base, ignore_errors=True)
+
+
 def plan(tier, seed, jobs):
     specs = []
     if tier == "quick":
@@ -164,9 +299,13 @@ def plan(tier, seed, jobs):
             specs.append({"kind": "random", "n": 80, "seed": seed, "j": 100 + j, "budget_s": 50, "observer": "polling"})
         for j in range(4):
             specs.append({"kind": "dual", "n": 12, "seed": seed, "j": j, "budget_s": 50})
+        for j in range(2):
+            specs.append({"kind": "linked", "n": 14, "seed": seed, "j": j, "budget_s": 50})
     else:
         for j in range(jobs):
             specs.append({"kind": "dual", "n": 300, "seed": seed, "j": j, "budget_s": 700})
+        for j in range(jobs):
+            specs.append({"kind": "linked", "n": 250, "seed": seed, "j": j, "budget_s": 700})
         for j in range(jobs * 3):
             specs.append({"kind": "random", "n": 4000, "seed": seed, "j": j, "budget_s": 700, "observer": "inotify"})
         for j in range(jobs):
@@ -192,6 +331,12 @@ def run_batch(spec):
             if b.expired():
                 break
             run_dual(b, r, "inotify" if n % 3 else "polling")
+    elif spec["kind"] == "linked":
+        r = rng_for(spec["seed"], "C19l", spec["j"])
+        for n in range(spec["n"]):
+            if b.expired():
+                break
+            run_linked(b, r)
     elif spec["kind"] == "history1":
         h = fshist.History(spec["cfg"]).run(justify=path_oracle)
         fshist.account(b, h, "C19", spec["cfg"], True)
